@@ -1152,6 +1152,34 @@ def m_fetch_add(ev, vals, n, s, path, gens):
              s.effect(("atomic_add", w, addr if addr is not None else a, vals[1])))]
 
 
+def _atomic_addr(a):
+    if isinstance(a, tuple) and a and a[0] == "objat":
+        return a[1]
+    if isinstance(a, tuple) and a and a[0] == "load":
+        return a[2]
+    if isinstance(a, tuple) and a and a[0] == "obj" and a[1].startswith("*"):
+        return ("v", a[1][1:], 64)
+    return None
+
+
+@suffix_model(r"sync::atomic::Atomic<u(32|64)>::load$|sync::atomic::AtomicU(32|64)::load$")
+def m_atomic_load(ev, vals, n, s, path, gens):
+    w = ev.bits(n["ty"])
+    addr = _atomic_addr(vals[0])
+    if not w or addr is None:
+        return None
+    return [(("load", w, addr), s)]
+
+
+@suffix_model(r"sync::atomic::Atomic<u(32|64)>::store$|sync::atomic::AtomicU(32|64)::store$")
+def m_atomic_store(ev, vals, n, s, path, gens):
+    w = _w(vals[1])
+    addr = _atomic_addr(vals[0])
+    if not w or addr is None:
+        return None
+    return [(UNIT, s.effect(("store", w, addr, vals[1])))]
+
+
 @suffix_model(r"core::mem::(size_of|align_of)$")
 def m_size_of(ev, vals, n, s, path, gens):
     sz = _size_of(gens[0]) if gens else None
